@@ -1196,6 +1196,38 @@ func main() {
 		aux := []int64{int64(h.c.Rng.Intn(2)), []int64{1, 3, 0x8000000A, 4}[h.c.Rng.Intn(4)], []int64{0, 0x10000, 0x1000000, 0x100000000}[h.c.Rng.Intn(4)]}
 		h.run("ParseEventData/random", dEventData, aux, h.rbytes(h.randomLen(200)), nil, "random")
 	}
+	// descriptions that are consistent with their length byte but not with the form the parser looks for:
+	// "Fv(" + the first n characters of a GUID text + ")" for EVERY n (the full text has 36), the same without
+	// the closing bracket / with other brackets / with non-GUID characters, each followed by zero, one or two
+	// (address, length) pairs - the blob2 form (length byte first) and the bare form
+	{
+		const guidText = "01234567-89AB-CDEF-0123-456789ABCDEF-0123-4567"
+		var descrs []string
+		for n := 0; n <= len(guidText); n++ {
+			descrs = append(descrs, "Fv("+guidText[:n]+")")
+		}
+		for _, n := range []int{0, 1, 35, 36, 37} {
+			descrs = append(descrs, "Fv("+guidText[:n], "Fv["+guidText[:n]+"]", "fv("+guidText[:n]+")", "Fv("+guidText[:n]+") ", "Fv("+strings.Repeat("z", n)+")", "Fv("+strings.Repeat(")", n)+")")
+		}
+		descrs = append(descrs, "", "F", "Fv", "Fv(", ")", "()", "Fv()Fv()", strings.Repeat("Fv(", 13)+")")
+		pairs := [][]byte{nil, cat(le64(0x100), le64(0xFFFF0000)), cat(le64(0x100), le64(0xFFFF0000), le64(0x200), le64(0xFFFF8000)), {1, 2, 3}}
+		for i, dsc := range descrs {
+			for _, typ := range []int64{0x8000000A, 1} {
+				for _, form := range []int{0, 1, 2} {
+					var data []byte
+					switch form {
+					case 0: // length byte, description, pairs
+						data = cat([]byte{byte(len(dsc))}, []byte(dsc), pairs[(i+form)%len(pairs)])
+					case 1: // bare description, pairs
+						data = cat([]byte(dsc), pairs[(i+1)%len(pairs)])
+					case 2: // length byte one off
+						data = cat([]byte{byte(len(dsc) + 1 - 2*(i%2))}, []byte(dsc), pairs[i%len(pairs)])
+					}
+					h.run("ParseEventData/descr", dEventData, []int64{0, typ, []int64{0x1000000, 0}[i%2]}, data, nil, fmt.Sprintf("description %q form %d type %#x", dsc, form, typ))
+				}
+			}
+		}
+	}
 
 	// ---- 14. ValueFromBytes
 	// exhaustive sweep of the dispatch (which parser table lists the id, which width it reads):
@@ -1571,6 +1603,7 @@ func main() {
 		"each call runs in a child process with RLIMIT_AS = 4 GiB and a 2 s deadline (the first time-out of a decoder is confirmed with a 20 s deadline before it counts); allocation = runtime.MemStats.TotalAlloc delta around the call")
 	c.Finish("model and implementation agree on every call: same outcome class (value/error/panic/out-of-memory), same decoded value (flattened field by field), " +
 		"and model allocation <= observed allocation <= 4 x model + 1 KiB/input byte + 4 MiB; inputs = every valid sample shipped in the repository per decoder, " +
+		"event-data descriptions consistent with their length byte in every near-miss of the Fv(<GUID>) form (every GUID-text length 0..46, missing / other brackets, non-GUID characters, length byte one off; blob2 and bare form; 0-2 address pairs), " +
 		"their truncations (every length or a stride plus field boundaries), single bit flips, 16/32-bit little-endian length-field overwrites " +
 		"(0, 1, 0xFFFF, 0xFFFFFFFF, len-1, len, len+1, ...), 16/32/64-bit fields (every count field of the ACM info tables and of the LCP lists and elements, and random offsets) " +
 		"at the wrap-around points of 8/16/32/64-bit products and casts (ceil(k*2^W/size)+d for entry sizes 1..72, the value below, the last multiple that fits the field, 2^(W-1), 2^W-1, 2^W, 2^W+1), " +
